@@ -29,26 +29,27 @@ from .emit import T, X, XSI, container, names, scratch_dir
 HEAD = '<?xml version="1.0" encoding="UTF-8" standalone="no" ?>\n<ODX MODEL-VERSION="2.2.0" ' + XSI + ">"
 
 
-def _dop(name: str, base: str, bits: Optional[int]) -> str:
+def _dop(name: str, base: str, bits: Optional[int], subset: str = ref.SUBSET) -> str:
     if base == "A_UINT32":
         dct = X("DIAG-CODED-TYPE", T("BIT-LENGTH", bits), xsi_type="STANDARD-LENGTH-TYPE", BASE_DATA_TYPE=base)
     else:
         dct = X("DIAG-CODED-TYPE", T("MAX-LENGTH", 64), T("MIN-LENGTH", 0), xsi_type="MIN-MAX-LENGTH-TYPE",
                 BASE_DATA_TYPE=base, TERMINATION="END-OF-PDU")
     return X("DATA-OBJECT-PROP", names(name), X("COMPU-METHOD", T("CATEGORY", "IDENTICAL")), dct,
-             X("PHYSICAL-TYPE", BASE_DATA_TYPE=base), ID=f"{ref.SUBSET}.{name}")
+             X("PHYSICAL-TYPE", BASE_DATA_TYPE=base), ID=f"{subset}.{name}")
 
 
-def _comparam(name: str, default: str, text: bool = False, param_class: str = "COM") -> str:
+def _comparam(name: str, default: str, text: bool = False, param_class: str = "COM", subset: str = ref.SUBSET) -> str:
     return X("COMPARAM", names(name, name[3:]), T("PHYSICAL-DEFAULT-VALUE", default),
-             X("DATA-OBJECT-PROP-REF", ID_REF=f"{ref.SUBSET}.{'D_TXT' if text else 'D_U32'}"),
-             ID=f"{ref.SUBSET}.{name}", PARAM_CLASS=param_class, CPTYPE="STANDARD", CPUSAGE="ECU-COMM")
+             X("DATA-OBJECT-PROP-REF", ID_REF=f"{subset}.{'D_TXT' if text else 'D_U32'}"),
+             ID=f"{subset}.{name}", PARAM_CLASS=param_class, CPTYPE="STANDARD", CPUSAGE="ECU-COMM")
 
 
-def _complex_comparam(name: str, subs: Any, top: bool = False) -> str:
+def _complex_comparam(name: str, subs: Any, top: bool = False, subset: str = ref.SUBSET) -> str:
     """COMPLEX-COMPARAM; a sub-parameter (name, [..]) is a nested COMPLEX-COMPARAM."""
-    children = [(_comparam(s, d, param_class="UNIQUE_ID") if isinstance(d, str) else _complex_comparam(s, d)) for s, d in subs]
-    return X("COMPLEX-COMPARAM", names(name, name[3:]), *children, ID=f"{ref.SUBSET}.{name}", PARAM_CLASS="UNIQUE_ID",
+    children = [(_comparam(s, d, param_class="UNIQUE_ID", subset=subset) if isinstance(d, str) else _complex_comparam(s, d, subset=subset))
+                for s, d in subs]
+    return X("COMPLEX-COMPARAM", names(name, name[3:]), *children, ID=f"{subset}.{name}", PARAM_CLASS="UNIQUE_ID",
              CPTYPE="STANDARD", CPUSAGE="ECU-COMM", ALLOW_MULTIPLE_VALUES=(True if top else None))
 
 
@@ -56,18 +57,31 @@ def _complex_comparam(name: str, subs: Any, top: bool = False) -> str:
 def subset_xml(variant: str = "flat") -> str:
     """The COMPARAM-SUBSET with every parameter the typed accessors read (ref.SIMPLE, ref.COMPLEX); `variant` selects
     the specification of the complex parameter (ref.VARIANTS: flat / nested COMPLEX-COMPARAM first / nested later)."""
-    simple = [_comparam(n, d["default"], bool(d.get("text"))) for n, d in ref.SIMPLE.items()]
-    cx = [_complex_comparam(n, ref.complex_subs(n, variant), top=True) for n in ref.COMPLEX]
+    simple = [_comparam(n, d["default"], bool(d.get("text"))) for n, d in ref.SIMPLE.items() if ref.subset_of(n) == ref.SUBSET]
+    cx = [_complex_comparam(n, ref.complex_subs(n, variant), top=True) for n in ref.COMPLEX if ref.subset_of(n) == ref.SUBSET]
     inner = (names(ref.SUBSET) + X("COMPARAMS", *simple) + X("COMPLEX-COMPARAMS", *cx) +
              X("DATA-OBJECT-PROPS", _dop("D_U32", "A_UINT32", 32), _dop("D_TXT", "A_UTF8STRING", None)))
     return HEAD + X("COMPARAM-SUBSET", inner, ID=ref.SUBSET, CATEGORY="TRANSPORT") + "</ODX>"
 
 
 @functools.lru_cache(maxsize=None)
+def subset_b_xml() -> str:
+    """A second COMPARAM-SUBSET whose specifications have the SAME SHORT NAMES as specifications of the first one but
+    other IDs, defaults and (the complex one) other sub-parameters (ref: the `name@B` parameters)."""
+    b = ref.SUBSET_B
+    simple = [_comparam(ref.short_name(n), d["default"], subset=b) for n, d in ref.SIMPLE.items() if ref.subset_of(n) == b]
+    cx = [_complex_comparam(ref.short_name(n), ref.complex_subs(n), top=True, subset=b) for n in ref.COMPLEX if ref.subset_of(n) == b]
+    inner = (names(b) + X("COMPARAMS", *simple) + X("COMPLEX-COMPARAMS", *cx) +
+             X("DATA-OBJECT-PROPS", _dop("D_U32", "A_UINT32", 32, b)))
+    return HEAD + X("COMPARAM-SUBSET", inner, ID=b, CATEGORY="TRANSPORT") + "</ODX>"
+
+
+@functools.lru_cache(maxsize=None)
 def cspec_xml() -> str:
     ps = X("PROT-STACK", names(ref.PSTACK), T("PDU-PROTOCOL-TYPE", "ISO_15765_3_on_ISO_15765_2"),
            T("PHYSICAL-LINK-TYPE", "ISO_11898_2_DWCAN"),
-           X("COMPARAM-SUBSET-REFS", X("COMPARAM-SUBSET-REF", ID_REF=ref.SUBSET, DOCREF=ref.SUBSET, DOCTYPE="COMPARAM-SUBSET")),
+           X("COMPARAM-SUBSET-REFS", *[X("COMPARAM-SUBSET-REF", ID_REF=sn, DOCREF=sn, DOCTYPE="COMPARAM-SUBSET")
+                                       for sn in (ref.SUBSET, ref.SUBSET_B)]),
            ID=f"{ref.CSPEC}.{ref.PSTACK}")
     return HEAD + X("COMPARAM-SPEC", names(ref.CSPEC) + X("PROT-STACKS", ps), ID=ref.CSPEC) + "</ODX>"
 
@@ -91,7 +105,7 @@ def comparam_ref_xml(inst: Dict[str, Any], prefix: str = "") -> str:
     return X("COMPARAM-REF", v, X("DESC", T("p", inst["tag"])),
              X("PROTOCOL-SNREF", SHORT_NAME=prefix + inst["proto"]) if inst.get("proto") else "",
              X("PROT-STACK-SNREF", SHORT_NAME=inst["pstack"]) if inst.get("pstack") else "",
-             ID_REF=f"{ref.SUBSET}.{inst['param']}", DOCREF=ref.SUBSET, DOCTYPE="COMPARAM-SUBSET")
+             ID_REF=ref.spec_id(inst["param"]), DOCREF=ref.subset_of(inst["param"]), DOCTYPE="COMPARAM-SUBSET")
 
 
 def hierarchy_layers(types: Sequence[str], parents: Sequence[Sequence[int]], local: Sequence[Sequence[Dict[str, Any]]],
@@ -136,6 +150,7 @@ def split_files(case: Dict[str, Any], children_first: bool, prefix: str = "h0_")
     for l in order:
         out[cname[l["name"]] + ".odx-d"] = container({"name": cname[l["name"]], "layers": [l], "foreign_layer_types": ltypes})
     out[ref.SUBSET + ".odx-cs"] = subset_xml(case.get("variant", "flat"))
+    out[ref.SUBSET_B + ".odx-cs"] = subset_b_xml()
     out[ref.CSPEC + ".odx-c"] = cspec_xml()
     return out
 
@@ -150,7 +165,7 @@ def batch_files(elements: Sequence[Dict[str, Any]]) -> Dict[str, str]:
     for k, e in enumerate(elements):
         layers.extend(hierarchy_layers(e["types"], e["parents"], e["local"], f"h{k}_", bool(e.get("reverse"))))
     return {"DLC15.odx-d": container({"name": "DLC15", "layers": layers}),
-            ref.SUBSET + ".odx-cs": subset_xml(variant), ref.CSPEC + ".odx-c": cspec_xml()}
+            ref.SUBSET + ".odx-cs": subset_xml(variant), ref.SUBSET_B + ".odx-cs": subset_b_xml(), ref.CSPEC + ".odx-c": cspec_xml()}
 
 
 def load_files(files: Dict[str, str]) -> Any:
